@@ -54,7 +54,7 @@ def main(tier):
         if rng.random() < 0.3:
             ctxs.append([10.0 ** rng.uniform(-3, 3) for _ in range(rng.randint(1, 3))])
         cases.append({"seed": ck.seed * 1000 + i, "dtype": ["float32", "float32", "float16", "bfloat16"][i % 4], "activations": ["qint8", "qfloat8_e4m3fn", "qfloat8_e5m2"][i % 3],
-                      "momentum": rng.choice([0.0, 0.5, 0.75, 0.9, 0.99]), "layers": archs[i % len(archs)], "width": 8, "contexts": ctxs, "streamline": rng.random() < 0.7})
+                      "momentum": rng.choice([0.0, 0.5, 0.75, 0.9, 0.99]), "layers": archs[i % len(archs)], "width": 8, "contexts": ctxs, "streamline": rng.random() < 0.7, "staging": i % 3 == 1})
     # directed: the running scale hits the sentinel value 1 exactly after the first batch (known finding F9)
     cases.append({"seed": 7, "dtype": "float32", "activations": "qint8", "momentum": 0.5, "layers": ["linear"], "width": 8, "contexts": [["sentinel", 3.0, 0.5]], "streamline": False, "directed": "sentinel"})
     res = ck.impl("calib", {"cases": cases}, timeout=2400)
@@ -80,7 +80,20 @@ def main(tier):
             for ev in snap["log"]:
                 if ev["kind"] in ("in", "in_quantized"):
                     last_in[ev["module"]] = ev["kind"]
+            # every float batch entering a module with quantized activations must contribute its own range max|x|/qmax
+            exp_seq, got_seq = {}, {}
             for ev in snap["log"]:
+                if ev["kind"] == "in_expected":
+                    exp_seq.setdefault(ev["module"], []).append(ev["bits"])
+                elif ev["kind"] == "in":
+                    got_seq.setdefault(ev["module"], []).append(ev["bits"])
+            for mod_, want_bits in exp_seq.items():
+                if got_seq.get(mod_, []) != want_bits:
+                    ck.violation("a float batch entering a module did not contribute its own range max|x|/qmax to the input scale (the range used is missing or is another tensor's)",
+                                 {"case": cfg, "module": mod_, "batch": bi, "expected_range_bits": want_bits, "used_range_bits": got_seq.get(mod_, []), "staging": c.get("staging")})
+            for ev in snap["log"]:
+                if ev["kind"] == "in_expected":
+                    continue
                 if ev["kind"] == "in_quantized":
                     if last_in.get(ev["module"]) != "in_quantized":
                         hist.pop((ev["module"], "in"), None)
